@@ -7,6 +7,7 @@ import PicoSVG.Spec.PathGrammar
 import PicoSVG.Proofs.LexP
 import PicoSVG.Proofs.SepP
 import PicoSVG.Proofs.NumAgree
+import PicoSVG.Proofs.SepAgree
 
 set_option linter.unusedSectionVars false
 namespace PicoSVG.C10
@@ -59,6 +60,14 @@ theorem number_some_matchFloat_some (cs : List Char) (h : (Spec.PathGrammar.numb
 /-- … and the arc flag scanner `^[01]` is the grammar's `flag` production -/
 theorem matchBool_is_grammar_flag (cs : List Char) : matchBool cs = Spec.PathGrammar.flag cs :=
   NumAgree.matchBool_eq_flag cs
+
+/-- C10-h (tokenizer = grammar, separators): on a separator run as path data writes it — spaces, at most one comma, spaces,
+    then something that is neither a separator nor whitespace — the grammar's optional `comma-wsp` and the tokenizer's
+    `[, ]+` split skip exactly the same characters, so the next number starts at the same place for both (with C10-g: same
+    numbers at the same places; runs with two commas, tabs or newlines are where the code raises ValueError or the grammar
+    rejects) -/
+theorem optCommaWsp_eq_split (cs : List Char) (h : SepAgree.sepRunOK cs = true) :
+    Spec.PathGrammar.optCommaWsp cs = cs.dropWhile isSep := SepAgree.optCommaWsp_eq_dropSep cs h
 
 /-! tie to the source: the regular expressions and tables the scanners stand for -/
 theorem gen_cmd_re : Gen.cmdRe = ("([mzlhvcsqtaMZLHVCSQTA])", 32) := by decide
